@@ -127,7 +127,7 @@ class Ctx:
             self.status[j] = 'open' if keep else 'gone'
 
 
-def run_program(sp, world_mode, cfg, kill, pre, mid, perm, what):
+def run_program(sp, world_mode, cfg, kill, pre, mid, perm, what, defer=0):
     """returns the listener order seen by the probe dispatch (tuple of logical ids)"""
     k = len(perm)
     ctx = Ctx(world_mode, cfg, kill)
@@ -143,7 +143,7 @@ def run_program(sp, world_mode, cfg, kill, pre, mid, perm, what):
     order = tuple(ctx.rec)
     # --- armed dispatch: callbacks make other handlers disappear
     before = dict(ctx.status)
-    dispatch(sp, ctx, True, what, 'dispatch with disappearing handlers')
+    dispatch(sp, ctx, True, what, 'dispatch with disappearing handlers', deferred=defer >= 1)
     victims = set()
     for i in ctx.rec:
         if i is not None:
@@ -151,6 +151,8 @@ def run_program(sp, world_mode, cfg, kill, pre, mid, perm, what):
     judge(sp, ctx, before, victims, what, 'dispatch with disappearing handlers')
     if any(before[j] == 'live' and ctx.status[j] == 'gone' for j in range(k)):
         sp.cover('died-during-dispatch')
+        if defer:
+            sp.cover('died-during-deferred-release')
     if any(before[j] == 'live' and ctx.status[j] in ('open', 'removed') for j in range(k)):
         sp.cover('detached-alive-during-dispatch')
     check_refs(sp, ctx, what, 'after the dispatch with disappearing handlers')
@@ -160,18 +162,29 @@ def run_program(sp, world_mode, cfg, kill, pre, mid, perm, what):
     check_refs(sp, ctx, what, 'after the drops between the dispatches')
     # --- later dispatches work normally
     before = dict(ctx.status)
-    dispatch(sp, ctx, False, what, 'last dispatch')
+    dispatch(sp, ctx, False, what, 'last dispatch', deferred=defer >= 2)
     judge(sp, ctx, before, set(), what, 'last dispatch')
     if any(s == 'live' for s in before.values()) and any(s == 'gone' for s in before.values()):
         sp.cover('survivors-and-dead')
     return order
 
 
-def dispatch(sp, ctx, armed, what, when):
+def dispatch(sp, ctx, armed, what, when, deferred=False):
+    """direct: d.dispatch(...).  deferred: the event is dispatched while dispatching is disabled and delivered by
+    the release that `dispatch_enabled = True` performs (handlers have no on_add/on_remove, so on a World the
+    queue holds nothing else)."""
     del ctx.rec[:]
     del ctx.late[:]
     try:
-        ctx.d.dispatch('ev', ctx, armed)
+        if deferred:
+            ctx.d.dispatch_enabled = False
+            ctx.d.dispatch('ev', ctx, armed)
+            if ctx.rec:
+                sp.fail('runs-while-disabled', '%s: %s: callbacks %r ran while dispatching was disabled'
+                        % (what, when, list(ctx.rec)))
+            ctx.d.dispatch_enabled = True
+        else:
+            ctx.d.dispatch('ev', ctx, armed)
     except Exception as ex:     # noqa
         msg = repr(ex)
         del ex
@@ -214,7 +227,7 @@ def check_refs(sp, ctx, what, when):
             assert ctx.refs[i]() is not None, 'harness lost handler %d (%s) %s' % (i, st, when)
 
 
-def h_weak(sp, k=2, world=True, cfgs=None, diag=False, drops=True):
+def h_weak(sp, k=2, world=True, cfgs=None, diag=False, drops=True, defer=(0,)):
     table = WORLD_CFG if world else DISPATCHER_CFG
     allowed = list(range(len(table))) if cfgs is None else list(cfgs)
     cfg = [table[sp.pick(allowed, 'config[h%d]' % i)] for i in range(k)]
@@ -227,6 +240,10 @@ def h_weak(sp, k=2, world=True, cfgs=None, diag=False, drops=True):
         kill.append(tuple(row))
     pre = [bool(drops and sp.flag('drop-before[h%d]' % i)) for i in range(k)]
     mid = [bool(drops and sp.flag('drop-between[h%d]' % i)) for i in range(k)]
+    dmode = sp.pick(list(defer), 'deferred-mode')
+    if dmode:
+        sp.note('the dispatch with disappearing handlers%s is issued while disabled and released by '
+                'dispatch_enabled = True' % (' and the last dispatch' if dmode == 2 else ''))
     what0 = '%s, %s' % ('World' if world else 'EventDispatcher', '; '.join(
         'h%d=%s%s/%s kills %s' % (i, cfg[i][0], '+kept' if cfg[i][1] else '', cfg[i][2], list(kill[i]))
         for i in range(k)))
@@ -239,7 +256,7 @@ def h_weak(sp, k=2, world=True, cfgs=None, diag=False, drops=True):
     for perm in itertools.permutations(range(k)):
         what = 'creation order %r' % (list(perm),)
         sp.note(what)
-        order = run_program(sp, world, cfg, kill, pre, mid, perm, what)
+        order = run_program(sp, world, cfg, kill, pre, mid, perm, what, dmode)
         orders.add(order)
         live0 = set(order)
     # schedule coverage: every order of the listeners alive at the first dispatch was exercised
@@ -259,12 +276,18 @@ HARNESSES = {
                            'detached-alive-during-dispatch', 'survivors-and-dead', 'all-listener-orders']),
 }
 
+DEFER_REQ = ['kill-relation', 'died-during-dispatch', 'died-before-its-turn', 'detached-alive-during-dispatch',
+             'survivors-and-dead', 'all-listener-orders', 'died-during-deferred-release']
+
 TIERS = {
     'quick': [
         ('weak', dict(k=2, world=False, diag=True)),
         ('weak', dict(k=2, world=True, diag=True)),
         ('weak', dict(k=3, world=False, drops=False)),
         ('weak', dict(k=3, world=True, cfgs=[0, 1, 3, 4], drops=False)),
+        ('weak', dict(k=2, world=False, diag=True, drops=False, defer=(1, 2)), {'required': DEFER_REQ}),
+        ('weak', dict(k=2, world=True, diag=True, drops=False, defer=(1, 2)), {'required': DEFER_REQ}),
+        ('weak', dict(k=3, world=True, cfgs=[0, 1, 3, 4], drops=False, defer=(1,)), {'required': DEFER_REQ}),
     ],
     'thorough': [
         ('weak', dict(k=3, world=False, diag=True, drops=False)),
@@ -272,6 +295,9 @@ TIERS = {
         ('weak', dict(k=2, world=True, diag=True)),
         ('weak', dict(k=3, world=True, drops=False)),
         ('weak', dict(k=3, world=True, cfgs=[0, 1, 3, 4])),
+        ('weak', dict(k=3, world=False, drops=False, defer=(1, 2)), {'required': DEFER_REQ}),
+        ('weak', dict(k=2, world=True, diag=True, defer=(1, 2)), {'required': DEFER_REQ}),
+        ('weak', dict(k=3, world=True, drops=False, defer=(1, 2)), {'required': DEFER_REQ}),
     ],
 }
 BUDGET_S = {'quick': 120, 'thorough': 1500}
@@ -291,10 +317,13 @@ RULE = ('one evaluation = one feasible path = one program (run under all k! list
 BOUNDS = {
     'quick': '2 handlers: all configurations (3 on an EventDispatcher, 6 on a World), full 2x2 kill matrix incl. self, '
              'drops before and between the dispatches; 3 handlers: 6-bit kill matrix, no drops, 3 dispatcher / 4 World '
-             'configurations; every program under all k! listener orders',
+             'configurations; deferred mode (the dispatch with disappearing handlers, optionally also the last one, '
+             'is issued while disabled and released by dispatch_enabled = True): 2 handlers on both kinds of '
+             'dispatcher, 3 handlers on a World; every program under all k! listener orders',
     'thorough': 'EventDispatcher: 3 handlers (9-bit matrix without drops; 6-bit matrix with 6 drop bits); World: 2 handlers '
                 'all options; 3 handlers x 6 configurations x 6-bit matrix; 3 handlers x 4 configurations x 6-bit '
-                'matrix x 6 drop bits; every program under all k! listener orders',
+                'matrix x 6 drop bits; deferred mode: 3 handlers on both kinds of dispatcher (6-bit matrix), 2 handlers '
+                'on a World with drops; every program under all k! listener orders',
 }
 ASSUMPTIONS = [
     'a handler that is alive but was detached from the World by remove_component or delete_entity(immediate) '
